@@ -1,9 +1,11 @@
 SPECIFICATION Spec
 CONSTANT MaxWords = 8
 CONSTANT EnmOnlyInPopOn = TRUE
+CONSTANT LineKeepsLast = FALSE
 INVARIANT QueueAtMostOne
 INVARIANT EndsNotBeforeStarts
 INVARIANT StartsInOrder
 INVARIANT OnlyLastBatchOpen
 INVARIANT NoRollOrPaintTextErased
+INVARIANT LaterLineWordsAreExecuted
 CHECK_DEADLOCK FALSE
